@@ -123,7 +123,18 @@ func (g *control) stmt(depth int, inLoop, first, last bool) []psref.Tok {
 		case 0:
 			src = []psref.Tok{psref.TX("["), g.tr(), g.tr(), g.tr(), psref.TX("]")}
 		case 1:
-			src = []psref.Tok{psref.TS([]byte("xyz"))}
+			// 0-4 bytes incl. NUL, DEL and bytes >= 0x80 (valid and
+			// invalid UTF-8 sequences): forall must hand over bytes
+			pool := []byte{'x', 'y', 0x00, 0x7f, 0x80, 0xc3, 0xa9, 0xe2, 0x82, 0xac, 0xff, '(', '\\'}
+			n := g.draw(5, "strlen")
+			s := make([]byte, n)
+			for i := range s {
+				s[i] = pool[g.draw(len(pool), "strbyte")]
+				if s[i] >= 0x80 {
+					g.feat["forall-highbyte"] = true
+				}
+			}
+			src = []psref.Tok{psref.TS(s)}
 		case 2:
 			src = []psref.Tok{psref.TX("<<"), psref.TL("k"), g.tr(), psref.TX(">>")}
 		default:
